@@ -10,11 +10,15 @@ The code is IEEE-754 arithmetic, so there are two models (DESIGN §8 C14):
     (`max_interval`, or `Duration::MAX` when absent), `e` the `usize → i32` clamp of the attempt.
     `idealExec` computes the same value with an early exit (it is what the driver runs;
     `TR/Lemmas/Backoff.lean` proves `idealExec = ideal`). The implementation's float result is an
-    observed choice that must lie in a small envelope around `ideal` (`allowedExp`, `allowedRand`).
+    observed choice: it must EQUAL `ideal` on the exact region of the float computation (`exactRegion`),
+    and elsewhere lie in a small envelope around `ideal`, below the cap, and in order with the values
+    accepted before for the same configuration (`allowedExp`, `obsOk`, `allowedRand`).
 
 (B) `nextInterval` — the repaired `capped_exponential` (and `randomize`) written against an
     abstract arithmetic `FloatLike` whose laws are fields of the structure (hypotheses, not axioms);
     `natArith` is a concrete instance (exact naturals with ∞), so the laws are consistent.
+    `TR/Model/BackoffFloat.lean` continues (B): what is assumed of binary64 beyond these four laws
+    (`F64Laws`, `JitterLaws`), the jitter range handed to `random_range`, `delay_for_attempt`, the loop.
 -/
 namespace TR.Backoff
 
@@ -84,20 +88,79 @@ def jitterHi (x pct : Nat) : Nat := x * (100 + pct) / 100
 /-- `random_range(min..=max)` with the random point `r/s ∈ [0,1]` -/
 def jittered (x pct r s : Nat) : Nat := jitterLo x pct + (jitterHi x pct - jitterLo x pct) * r / s
 
+/-! ### any factor `fn/fd ∈ [0,1]` (the constructor takes an arbitrary `f64` and clamps it) -/
+
+def jitterLoQ (x fn fd : Nat) : Nat := x * (fd - fn) / fd
+def jitterHiQ (x fn fd : Nat) : Nat := x * (fd + fn) / fd
+/-- `random_range(min..=max)` with the random point `r/s ∈ [0,1]` -/
+def jitteredQ (x fn fd r s : Nat) : Nat := jitterLoQ x fn fd + (jitterHiQ x fn fd - jitterLoQ x fn fd) * r / s
+
+/-- `randomization_factor.clamp(0.0, 1.0)` in `ExponentialRandomBackoff::new`: everything above 1 (`n/0` with `n > 0`
+is `+∞`) becomes 1. (`0/0` is NaN, which `clamp` keeps: outside the property's quantifier, never generated.) -/
+def clampFactor (fn fd : Nat) : Nat × Nat := if fd < fn then (1, 1) else (fn, fd)
+
+/-! ## the exact region of the float computation
+
+Every `f64` operation of `capped_exponential` is exact — no rounding at all — when the initial interval and the
+maximum are numbers of seconds binary64 represents exactly and the multiplier is a power of two (hypothesis structure
+`F64Laws`, `TR/Model/BackoffFloat.lean`; theorem `TR.Props.C14.float_exact_in_exact_region`). There the
+implementation's value is not a choice: it must equal `ideal`. `repB` is a sufficient, executable test for "S ns is
+exactly representable in seconds": `S = q·5^9` with `q < 2^53`, i.e. `S/10^9 = q/2^9`. -/
+
+def five9 : Nat := 1953125
+def repB (S : Nat) : Bool := S % five9 == 0 && decide (S / five9 < 2 ^ 53)
+/-- the maximum is absent (`Duration::MAX`, whose `as_secs_f64` is `2^64`), `Duration::MAX` itself, or exactly representable -/
+def capExactB (c : Option Nat) : Bool :=
+  match c with
+  | none => true
+  | some c => c == durMax || repB c
+/-- `j` with `num/den = 2^j`, if there is one below 64 -/
+def pow2Of (num den : Nat) : Option Nat := (List.range 64).find? (fun j => num == 2 ^ j * den)
+def exactRegion (cfg : Cfg) : Bool :=
+  decide (0 < cfg.den) && decide (cfg.num < 2 ^ 53) && repB cfg.initial && capExactB cfg.cap && (pow2Of cfg.num cfg.den).isSome
+
 /-! ## the envelope the float-valued implementation must stay in -/
 
 /-- relative `2^-40` plus one nanosecond -/
 def tol (x : Nat) : Nat := x / 2 ^ 40 + 1
 def near (v x : Nat) : Bool := decide (v ≤ x + tol x) && decide (x ≤ v + tol x)
 
-/-- un-jittered kinds: never above the cap, and within the tolerance of `ideal` (which equals the
-cap from the attempt at which the exact value reaches it) -/
-def allowedExp (cfg : Cfg) (a v : Nat) : Bool := decide (v ≤ cfg.capNs) && near v (idealExec cfg a)
+/-- un-jittered kinds. Inside the exact region: exactly `ideal`. Outside: never above the cap, and within the
+tolerance of `ideal` (which equals the cap from the attempt at which the exact value reaches it); monotonicity in the
+attempt number is checked against the history of accepted values (`obsOk`). -/
+def allowedExp (cfg : Cfg) (a v : Nat) : Bool :=
+  if exactRegion cfg then v == idealExec cfg a
+  else decide (v ≤ cfg.capNs) && near v (idealExec cfg a)
 
-/-- jittered kinds: within the randomization factor of the capped value (± tolerance), ≤ `Duration::MAX` -/
-def allowedRand (cfg : Cfg) (pct a v : Nat) : Bool :=
+/-- jittered kinds: within the randomization factor `fn/fd` of the capped value (± tolerance), ≤ `Duration::MAX`.
+The value `d` the code jitters is itself float-computed and rounded to the nearest nanosecond (`|d − x| ≤ tol x`, the
+envelope of the un-jittered kinds), so `d(1+f) ≤ x(1+f) + 2·tol x`, and the conversion of the draw rounds once more
+(the same slack as the python monitor: it matters for delays of a few nanoseconds only). -/
+def allowedRand (cfg : Cfg) (fn fd a v : Nat) : Bool :=
   let x := idealExec cfg a
-  decide (jitterLo x pct ≤ v + tol x + 1) && decide (v ≤ jitterHi x pct + tol (2 * x) + 1) && decide (v ≤ durMax)
+  decide (jitterLoQ x fn fd ≤ v + tol x + 1) && decide (v ≤ jitterHiQ x fn fd + 2 * tol x + 1) && decide (v ≤ durMax)
+
+/-! ## the observed values are monotone in the attempt number
+
+`powi` is not promised to be monotone in the exponent by IEEE 754; `F64Laws.powi_mono` assumes it for multipliers ≥ 1,
+and under that assumption the code is monotone (`TR.Props.C14.float_monotone`). The checker holds every observed value
+against the assumption: per configuration it keeps the accepted (attempt, value) pairs and accepts a new pair only if
+it is ordered consistently with all of them (the same attempt asked twice must give the same value). -/
+
+def obsOk (a v : Nat) (l : List (Nat × Nat)) : Bool :=
+  l.all fun p => (!decide (p.1 ≤ a) || decide (p.2 ≤ v)) && (!decide (a ≤ p.1) || decide (v ≤ p.2))
+
+abbrev Hist := List (Cfg × List (Nat × Nat))
+
+def histGet (h : Hist) (cfg : Cfg) : List (Nat × Nat) :=
+  match h with
+  | [] => []
+  | (c, l) :: tl => if c = cfg then l else histGet tl cfg
+
+def histSet (h : Hist) (cfg : Cfg) (l : List (Nat × Nat)) : Hist :=
+  match h with
+  | [] => [(cfg, l)]
+  | (c, l0) :: tl => if c = cfg then (c, l) :: tl else (c, l0) :: histSet tl cfg l
 
 /-! ## the interval functions and `ReconnectPolicy` -/
 
@@ -105,7 +168,7 @@ inductive Kind
   | none                          -- ReconnectPolicy::None
   | fixed (ns : Nat)              -- FixedInterval / ReconnectPolicy::Fixed
   | exp (cfg : Cfg)               -- ExponentialBackoff / ReconnectPolicy::Exponential / RetryPolicy over it
-  | rand (cfg : Cfg) (pct : Nat)  -- ExponentialRandomBackoff / ReconnectPolicy::ExponentialRandom
+  | rand (cfg : Cfg) (fn fd : Nat)  -- ExponentialRandomBackoff / ReconnectPolicy::ExponentialRandom, factor fn/fd (as stored: clamped)
 deriving Repr, DecidableEq
 
 /-- the un-jittered delay of every kind -/
@@ -113,14 +176,14 @@ def Kind.base : Kind → Nat → Option Nat
   | .none, _ => Option.none
   | .fixed d, _ => some d
   | .exp cfg, a => some (ideal cfg a)
-  | .rand cfg _, a => some (ideal cfg a)
+  | .rand cfg _ _, a => some (ideal cfg a)
 
 /-- the largest value a kind may return before jitter -/
 def Kind.bound : Kind → Nat
   | .none => 0
   | .fixed d => d
   | .exp cfg => cfg.capNs
-  | .rand cfg _ => cfg.capNs
+  | .rand cfg _ _ => cfg.capNs
 
 /-- observed value of the implementation: nanoseconds, `None`, or a panic -/
 inductive Obs
@@ -133,7 +196,7 @@ def Kind.allowed : Kind → Nat → Obs → Bool
   | .none, _, .none => true
   | .fixed d, _, .ns v => v == d
   | .exp cfg, a, .ns v => allowedExp cfg a v
-  | .rand cfg pct, a, .ns v => allowedRand cfg pct a v
+  | .rand cfg fn fd, a, .ns v => allowedRand cfg fn fd a v
   | _, _, _ => false
 
 /-! ## (B) the repaired code over an abstract arithmetic -/
@@ -254,15 +317,23 @@ def parseCfg (kv : Kv) : Cfg :=
 def policyCfg (kv : Kv) : Cfg :=
   build (kv.nat "initial_ns" 0) [.mult 2 1, .cap ((kv.optNat "cap_ns").getD durMax)]
 
+/-- the randomization factor as the constructor stores it: `rf_num=`/`rf_den=` (any rational; above 1 it is clamped
+to 1), else `rf_pct=`/100 (old op files) -/
+def parseFactor (kv : Kv) : Nat × Nat :=
+  match kv.get "rf_num" with
+  | some _ => clampFactor (kv.nat "rf_num" 1) (kv.nat "rf_den" 2)
+  | none => clampFactor (kv.nat "rf_pct" 50) 100
+
 def parseKind (kv : Kv) : Kind :=
+  let f := parseFactor kv
   match kv.str "kind" "exp" with
   | "policy_none" => .none
   | "fixed" => .fixed (kv.nat "initial_ns" 0)
   | "policy_fixed" => .fixed (kv.nat "initial_ns" 0)
-  | "rand" => .rand (parseCfg kv) (kv.nat "rf_pct" 50)
-  | "retry_policy_rand" => .rand (parseCfg kv) (kv.nat "rf_pct" 50)
-  | "policy_rand_of" => .rand (parseCfg kv) (kv.nat "rf_pct" 50)
-  | "policy_rand" => .rand (policyCfg kv) (kv.nat "rf_pct" 50)
+  | "rand" => .rand (parseCfg kv) f.1 f.2
+  | "retry_policy_rand" => .rand (parseCfg kv) f.1 f.2
+  | "policy_rand_of" => .rand (parseCfg kv) f.1 f.2
+  | "policy_rand" => .rand (policyCfg kv) f.1 f.2
   | "policy_exp" => .exp (policyCfg kv)
   | _ => .exp (parseCfg kv)      -- exp, retry_policy, policy_exp_of, policy_custom
 
@@ -278,20 +349,37 @@ def Obs.render : Obs → String
   | .none => "none"
   | .panic => "panic"
 
-def probe (hdr : Kv) (ws : List String) : List Ev :=
-  let kv := kvMerge hdr (parseKv ws)
+/-- the driver's state: the case header and, per configuration, the accepted observations of the un-jittered kinds -/
+structure St where
+  hdr : Kv
+  hist : Hist := []
+
+/-- the history after an allowed observation; `none` if it contradicts monotonicity in the attempt number (only the
+un-jittered exponential kinds are recorded: a jittered value is a fresh random sample per call) -/
+def record (h : Hist) : Kind → Nat → Obs → Option Hist
+  | .exp cfg, a, .ns v => if obsOk a v (histGet h cfg) then some (histSet h cfg ((a, v) :: histGet h cfg)) else none
+  | _, _, _ => some h
+
+/-- one `probe backoff` line: the observed value is accepted iff it is allowed for the kind (`Kind.allowed`) and, for
+an exponential kind, ordered consistently with every value accepted before for the same configuration -/
+def probe (st : St) (ws : List String) : St × List Ev :=
+  let kv := kvMerge st.hdr (parseKv ws)
   let a := kv.nat "attempt" 0
   let o := parseObs ws
-  if (parseKind kv).allowed a o then [.probe s!"backoff attempt={a} = {o.render}"]
-  else [.raw "choice-not-allowed"]
+  let k := parseKind kv
+  if k.allowed a o then
+    match record st.hist k a o with
+    | some h => ({ st with hist := h }, [Ev.probe s!"backoff attempt={a} = {o.render}"])
+    | none => (st, [.raw "choice-not-allowed"])
+  else (st, [.raw "choice-not-allowed"])
 
 def machine : Machine where
-  σ := Kv
-  init kv := kv
-  step := fun hdr ws =>
+  σ := St
+  init kv := { hdr := kv }
+  step := fun st ws =>
     match ws with
-    | "probe" :: "backoff" :: rest => (hdr, probe hdr rest)
-    | _ => (hdr, [])
+    | "probe" :: "backoff" :: rest => probe st rest
+    | _ => (st, [])
   now := fun _ => 0
 
 end TR.Backoff
